@@ -5,12 +5,28 @@ PROPS = {}
 
 
 def prop(pid, **kw):
+    kw.setdefault('ground', [])
+    kw.setdefault('bounded', [])
+    kw.setdefault('assumptions', [])
+    kw.setdefault('level', 'other')
     PROPS[pid] = kw
 
 
-prop('C04', level='other', ground=[], bounded=[],
-     explanation='contract obligations on the validator closures generated from the real AST and discharged by SMT',
-     assumptions=[])
-prop('C07', level='other', ground=[], bounded=[], explanation='', assumptions=[])
-prop('C13', level='other', ground=[], bounded=[], explanation='', assumptions=[])
-prop('C15', level='other', ground=[], bounded=[], explanation='', assumptions=[])
+prop('C04',
+     explanation='contract obligations on the validator closures, generated from the real AST and discharged by SMT')
+prop('C07', explanation='contracts on check_encoding_chars, _split_msh, get_message_info, default resolvers')
+prop('C09', explanation='functional postconditions of the ElementList mutators against the ordered-list model')
+prop('C10', explanation='back-pointer and container-consistency postconditions of the attach path')
+prop('C11', explanation='frame clauses of the read paths and the traversal (temporary parent) path')
+prop('C12', explanation='exceptional postconditions (raises => view unchanged) of the mutators')
+prop('C13', explanation='contracts on the format-selection helpers')
+prop('C14', explanation='contracts on name resolution (find_child_reference interface, _find_name, child_at_index)')
+prop('C15', explanation='raises clauses: only declared exception classes escape the header functions')
+
+prop('C01', ground=['tables:twf_segments', 'tables:twf_datatypes'], bounded=['roundtrip'],
+     explanation='table preconditions of the round-trip lemma instantiated at every row (ground, exhaustive); decoder / '
+                 'encoder contracts; end-to-end round trips through the real code as a bounded stand-in')
+prop('C02', ground=['tables:twf_segments', 'tables:twf_datatypes', 'tables:constructible', 'tables:positions'],
+     bounded=[],
+     explanation='the position <-> name map is the table: every row checked (ground, exhaustive), every segment and '
+                 'complex datatype instantiated, the position lemma executed on every well-formed row')
